@@ -29,7 +29,7 @@ CHECKS = {
             "Decides the delay law with units, antisymmetry/additivity, sample_delay = time_delay*rate for any DM unit, the per-channel realignment identity (symbolic delays: lo_i - crop = round(delay_i), own channel, equal lengths, in-range sources; fixed delay patterns: any slicing strategy - per channel, blocks, one slice - yields channel i over [crop+r_i, crop+r_i+N-max)), start-time advance, ledger. Not decided: Quantity rounding." + RS,
             "units as positive symbols; round as floor(x+1/2)", "4/C06"),
     "C07": (AI + " on a model of Phase objects; identical-argument recursion detection; record-array shape rules",
-            "Decides the routing necessary for two-double results: no never-copy constructor on non-array operands, every ufunc family of the statement built by from_angles from the separate int/frac parts in operand order with the physical factor/divisor, termination and two-part correction of the floor-divide family also for Phase divisors, storage of both parts for operands of any broadcast shape, the real/imaginary sign table (i*i = -1). Not decided: the error-free-transformation arithmetic inside day_frac (two_sum/two_product)." + RS,
+            "Decides the routing necessary for two-double results: no never-copy constructor on non-array operands, every ufunc family of the statement built by from_angles from the separate int/frac parts in operand order with the physical factor/divisor, termination and two-part correction of the floor-divide family also for Phase divisors, storage of both parts for operands of any broadcast shape, the real/imaginary sign table (i*i = -1); day_frac is additionally folded on ~60 concrete adversarial operand vectors (witness refutation of order-dependent or lossy accumulation, not a proof). Not decided: correctness of the error-free transformations for all doubles." + RS,
             "numpy>=2 copy=False semantics; astropy API table", "4/C07"),
     "C08": (AI + " on symbolic polyco text and a predictor-table model; CFG dominance; alias analysis of the table",
             "Decides that from_polyco builds exactly the tempo polynomial (all coefficient counts, D/E exponents, reference phase split, 60*F0, domain scale), TMID precision (text or two doubles into Time), scalar/array branch agreement for any index order, derivative order and unit, range-check acceptance condition and dominance, interval merging on concrete tables, that prediction methods never write the table. Not decided: 1e-8 accuracy of polynomial evaluation, root-finder convergence." + RS,
